@@ -96,7 +96,8 @@ def entry_sig(e):
 
 def make_cache_text(cached, same_version, pretty=True, alter=0):
     """What a previous scan (real writer) left behind: entries {p -> A(p, c')}. alter: 1 = the first entry lost its functions ("measurements": []), 2 = ("measurements": {}),
-    3 = its loc was changed - an entry whose line total no longer equals the sum of its function lengths is not what any scan wrote."""
+    3 = its loc was changed - an entry whose line total no longer equals the sum of its function lengths is not what any scan wrote;
+    4 / 5 / 6 = the document's version key is missing / null / empty."""
     cb = Codebase("/w")
     for p, c in cached.items():
         cb.add_file(A(p, c))
@@ -117,8 +118,14 @@ def make_cache_text(cached, same_version, pretty=True, alter=0):
             d["codebase"]["files"][k]["measurements"] = []
         elif alter == 2:
             d["codebase"]["files"][k]["measurements"] = {}
-        else:
+        elif alter == 3:
             d["codebase"]["files"][k]["loc"] += 1
+        elif alter == 4:
+            del d["version"]                 # a document that does not say which version wrote it was not (verifiably) written by this one
+        elif alter == 5:
+            d["version"] = None
+        else:
+            d["version"] = ""
         text = json.dumps(d, indent=2)
     return text
 
@@ -265,10 +272,10 @@ def h_step(t0: int, t1: int, t2: int, e0: int, e1: int, e2: int, has_cache: bool
 
 def h_step_altered(t0: int, t1: int, e0: int, e1: int, alter: int) -> bool:
     """
-    pre: all(-1 <= x < NCONT for x in [t0, t1, e0, e1]) and 1 <= alter <= 3
+    pre: all(-1 <= x < NCONT for x in [t0, t1, e0, e1]) and 1 <= alter <= 6
     post: _
     """
-    return _h_step(t0, t1, -1, e0, e1, -1, True, True, _sel(alter, 1, 3))
+    return _h_step(t0, t1, -1, e0, e1, -1, True, True, _sel(alter, 1, 6))
 
 
 def _h_step(t0, t1, t2, e0, e1, e2, has_cache, same_version, alter):
